@@ -210,6 +210,12 @@ func c20Shutdown(r *core.Run, agentBin string, md *fakes.Metadata, c c20ShutCase
 		case atBackend <- struct{}{}:
 		default:
 		}
+		if c.Phase == "body-streaming" && rawhttp.SHA(req.Body) != rawhttp.SHA(tokBytes(tok, "c20-body", 40000)) {
+			var w rawhttp.Builder
+			w.Line("HTTP/1.1 400 Request body incomplete").Field("Content-Length", "0").End()
+			conn.Write(w.Bytes())
+			return false
+		}
 		if c.Phase == "at-backend" {
 			<-release
 		}
@@ -289,6 +295,32 @@ func c20Shutdown(r *core.Run, agentBin string, md *fakes.Metadata, c c20ShutCase
 			return false
 		}
 	}
+	bodyTok := "sd" + c.Name
+	reqBody := tokBytes(bodyTok, "c20-body", 40000)
+	if c.Phase == "body-streaming" {
+		// the fetch reply carries the request header and half of its body; the rest follows only after the signal
+		px.OnFetch = func(id string, w http.ResponseWriter, req *http.Request) bool {
+			raw := tokRequest("POST", bodyTok, 4000, 0, "c20.example", reqBody, nil)
+			w.Header().Set("X-Inverting-Proxy-Request-ID", id)
+			w.Header().Set("X-Inverting-Proxy-Request-Start-Time", time.Now().Format(time.RFC3339Nano))
+			w.WriteHeader(200)
+			k := len(raw) - len(reqBody)/2
+			w.Write(raw[:k])
+			if fl, ok := w.(http.Flusher); ok {
+				fl.Flush()
+			}
+			select {
+			case fetchHeld <- struct{}{}:
+			default:
+			}
+			select {
+			case <-release:
+			case <-time.After(25 * time.Second):
+			}
+			w.Write(raw[k:])
+			return true
+		}
+	}
 	agent, err := startAgent(r, agentBin, "agent-"+c.Name, md, px.URL(), backend.Addr(), "b20-"+c.Name, args...)
 	if err != nil {
 		r.Broken(err.Error())
@@ -363,7 +395,7 @@ func c20Shutdown(r *core.Run, agentBin string, md *fakes.Metadata, c c20ShutCase
 		px.Store(tok, tokRequest("GET", tok, 4000, 0, "c20.example", nil, nil), "")
 		l1.rel <- []byte(fmt.Sprintf("[%q]", tok))
 		reached := atBackend
-		if c.Phase == "listed" {
+		if c.Phase == "listed" || c.Phase == "body-streaming" {
 			reached = fetchHeld
 		}
 		select {
@@ -455,7 +487,7 @@ func c20Shutdown(r *core.Run, agentBin string, md *fakes.Metadata, c c20ShutCase
 	}
 	_ = extraBefore
 	// the forwarded request must be answered in full when the backend finished inside the period
-	if (c.Phase == "at-backend" || c.Phase == "uploading") && c.Finish == "inside" {
+	if (c.Phase == "at-backend" || c.Phase == "uploading" || c.Phase == "body-streaming") && c.Finish == "inside" {
 		ups := px.Uploads(tok)
 		ok := false
 		var why string
@@ -465,7 +497,7 @@ func c20Shutdown(r *core.Run, agentBin string, md *fakes.Metadata, c c20ShutCase
 			u := ups[len(ups)-1]
 			if u.Resp == nil || u.Err != "" {
 				why = "upload incomplete: " + u.Err
-			} else if bad := checkTokResponse(u.Resp, "GET", tok, 4000); len(bad) > 0 {
+			} else if bad := checkTokResponse(u.Resp, map[bool]string{true: "POST", false: "GET"}[c.Phase == "body-streaming"], tok, 4000); len(bad) > 0 {
 				why = fmt.Sprint(bad)
 			} else {
 				ok = true
@@ -525,12 +557,15 @@ func C20(r *core.Run) {
 	}
 	for _, sig := range []string{"INT", "TERM"} {
 		for _, g := range []int{0, 2, 5} {
-			for _, ph := range []string{"idle", "listed", "proxy-failing", "at-backend", "uploading"} {
+			for _, ph := range []string{"idle", "listed", "proxy-failing", "at-backend", "body-streaming", "uploading"} {
 				for _, fin := range []string{"inside", "outside"} {
 					if (ph == "idle" || ph == "listed" || ph == "proxy-failing") && fin == "outside" {
 						continue
 					}
-					if ph == "proxy-failing" && g == 0 {
+					if (ph == "proxy-failing" || ph == "body-streaming") && g == 0 {
+						continue
+					}
+					if ph == "body-streaming" && fin == "outside" {
 						continue
 					}
 					if g == 0 && fin == "outside" {
@@ -587,6 +622,23 @@ func C20(r *core.Run) {
 			}
 		}(c)
 	}
+	type su struct {
+		sig   string
+		grace int
+	}
+	sus := []su{{"TERM", 0}, {"INT", 2}}
+	if !r.Quick() {
+		sus = append(sus, su{"INT", 0}, su{"TERM", 2}, su{"TERM", 5})
+	}
+	for i, x := range sus {
+		sem <- struct{}{}
+		wg.Add(1)
+		go func(i int, x su) {
+			defer wg.Done()
+			defer func() { <-sem }()
+			c20SignalDuringStartup(r, agentBin, md, fmt.Sprintf("su%d", i), x.sig, x.grace)
+		}(i, x)
+	}
 	wg.Wait()
 	for _, c := range redo {
 		c.Name += "solo"
@@ -598,4 +650,76 @@ func C20(r *core.Run) {
 	r.Set("shutdown_scenarios", len(scs))
 	r.JudgeRaces(core.ParseRaceLogs(filepath.Join(r.WorkDir, "race-")))
 	r.Finish(r.Pick(8, 100))
+}
+
+// c20SignalDuringStartup sends the signal while the agent is still waiting
+// for its first passing health check: it must exit (promptly without a grace
+// period, by the end of it otherwise) instead of swallowing the signal.
+func c20SignalDuringStartup(r *core.Run, agentBin string, md *fakes.Metadata, name, signal string, graceS int) {
+	var mu sync.Mutex
+	served := 0
+	backend, err := rawhttp.NewServer(func(req *rawhttp.Message, reqErr error, conn net.Conn, br *bufio.Reader) bool {
+		if reqErr != nil {
+			return false
+		}
+		var w rawhttp.Builder
+		w.Line("HTTP/1.1 503 Unhealthy").Field("Content-Length", "0").End()
+		conn.Write(w.Bytes())
+		mu.Lock()
+		served++
+		mu.Unlock()
+		return true
+	})
+	if err != nil {
+		r.Broken(err.Error())
+		return
+	}
+	defer backend.Close()
+	px, err := fakes.NewProxy()
+	if err != nil {
+		r.Broken(err.Error())
+		return
+	}
+	defer px.Close()
+	args := []string{"--health-check-path=/healthz", "--health-check-interval-seconds=1", "--health-check-unhealthy-threshold=2"}
+	if graceS > 0 {
+		args = append(args, fmt.Sprintf("--graceful-shutdown-timeout=%ds", graceS))
+	}
+	agent, err := startAgent(r, agentBin, "agent-"+name, md, px.URL(), backend.Addr(), "b20-"+name, args...)
+	if err != nil {
+		r.Broken(err.Error())
+		return
+	}
+	defer agent.Kill()
+	// wait until at least two failing health replies were served (the agent is in its start-up wait)
+	deadline := time.Now().Add(20 * time.Second)
+	for {
+		mu.Lock()
+		n := served
+		mu.Unlock()
+		if n >= 2 {
+			break
+		}
+		if !agent.Alive() || time.Now().After(deadline) {
+			r.Inconclusive("start-up signal scenario " + name + ": the agent did not reach its health wait")
+			return
+		}
+		time.Sleep(10 * time.Millisecond)
+	}
+	sig := syscall.SIGINT
+	if signal == "TERM" {
+		sig = syscall.SIGTERM
+	}
+	tSig := time.Now()
+	agent.Signal(sig)
+	r.Case(fmt.Sprintf("shutdown|%s|grace=%d|waiting-for-first-healthy|-", signal, graceS))
+	select {
+	case <-agent.Done():
+		r.Max("max_exit_latency_ms_signal_during_startup", int(time.Since(tSig).Milliseconds()))
+	case <-time.After(time.Duration(graceS)*time.Second + 10*time.Second):
+		r.Violate("C20:signal-swallowed-during-startup:"+signal, fmt.Sprintf("scenario %s: SIG%s arrived while the agent was waiting for its first passing health check (grace period %ds); it was still running %v later", name, signal, graceS, time.Since(tSig).Round(time.Millisecond)), nil, nil)
+	}
+	if px.Lists() > 0 {
+		r.Violate("C20:polled-before-healthy", fmt.Sprintf("scenario %s: the proxy received %d list calls although no health check ever passed", name, px.Lists()), nil, nil)
+	}
 }
